@@ -22,6 +22,7 @@ func init() {
 		Level: "exploration",
 		Rule: "(a) constructor matrix: every instruction, terminator, constant and constant-expression constructor of the public API is applied to well-typed operands over the operand shapes {i1,i8,i13,i32,i64,i128; half,float,double,x86_fp80,fp128; pointers in address space 0/1; fixed and scalable vectors; arrays; literal and identified structs; function pointers with and without varargs; integer constants of 64-256 bits built by NewIntFromString in decimal, negative, u0x and s0x spellings}, with named and unnamed results; each recipe is its own function/global. No constructor may panic, String() must not panic, llvm-as must accept the text, the library's parser must accept it, and parse(text) must be structurally identical to the constructed module. " +
 			"(b) construction programs: PRNG data-flow programs over integer (including 65/100/128/256-bit constants combined, shifted and truncated back to 64 bits), floating-point, memory, vector, aggregate and control-flow constructors are built through the API and executed with lli; the values they print and the exit code must equal those of the monitor's reference evaluator (big-integer / IEEE semantics), which evaluates the same construction calls. " +
+			"named aliases: twelve constructions mix values of named non-struct types (%T = type i32*, %I = type i32, %V = type <2 x i32>) with values of their bodies (store, insertvalue, insertelement, icmp, select, add, gep, load): no constructor may reject the mix, and the module goes through the same print/LLVM/re-parse comparison. " +
 			"non-trivial = a recipe or program that LLVM accepted; distinct by printed text",
 		Gen:           genC03,
 		MinNontrivial: 150,
